@@ -190,12 +190,20 @@ def write_table(all_ids):
         def v(k):
             x = c.get(k)
             return "—" if x is None else ("yes" if x else "**no**")
-        others = ", ".join(p for p in c.get("caught_by_quick", []) if p != m["property"])
+        others = ", ".join(p for p in (c.get("caught_by_quick") or m.get("caught_by_quick") or []) if p != m["property"])
         rows.append(f"| {sid} | {m.get('round', '')} | {what[:150]} | {v('caught_by_target_quick')} | {v('caught_by_target_thorough')} | {others} |")
     with open(f"{VERIF}/seeded/VERDICTS.md", "w") as f:
         f.write("Generated by run_seeded.py from seeded/*/meta.json (member `current`). Do not edit.\n\n")
         f.write("| change | round | what it does | target quick | target thorough | other quick checks that fire |\n|---|---|---|---|---|---|\n")
         f.write("\n".join(rows) + "\n")
+    # the same table inside DESIGN.md, between its markers
+    dp = f"{VERIF}/DESIGN.md"
+    d = open(dp).read()
+    b, e = "<!-- MUTANT_TABLE_BEGIN -->", "<!-- MUTANT_TABLE_END -->"
+    if b in d and e in d:
+        table = "| change | round | what it does | target quick | target thorough | other checks that fired (quick tier; for rounds 1-2 as recorded when the change was seeded) |\n|---|---|---|---|---|---|\n" + "\n".join(rows) + "\n"
+        d = d[:d.index(b) + len(b)] + "\n" + table + d[d.index(e):]
+        open(dp, "w").write(d)
 
 
 if __name__ == "__main__":
